@@ -4,20 +4,10 @@ import json, os, sys
 HERE = os.path.dirname(os.path.dirname(os.path.abspath(__file__)))
 ALL = ["C%02d" % i for i in range(1, 21)]
 
-CHECKS = {
- "C17": dict(
-   category="proof",
-   text="66 closed Coq theorems about the executable model of integer.h/rational.h/dyadic_rational.h (Scalar.v): every Z_m "
-        "operation returns THE symmetric-range representative of the exact result for every modulus m>=1, inverse/exact "
-        "division/divides solve their congruences, rational and dyadic operations return the unique canonical form of the exact "
-        "value in Q, and each dyadic operation written as the C code's field-by-field program is independent of the previous "
-        "contents of the output operand and of aliasing. The model is tied to /repo on every run by differential execution of the "
-        "extracted model against the sanitizer build of the working tree (fresh / pre-used / aliased outputs).",
-   note="Trusted: Coq kernel; extraction (ExtrOcamlBasic) + OCaml/zarith I/O glue; C harness and generator; GMP by its documentation; "
-        "no wrap-around of unsigned long exponents. All theorems: Closed under the global context. from_double and hashing are not modelled.",
-   technique="Rocq proof over hand-written Gallina model + differential correspondence (extracted OCaml vs sanitizer build)",
-   design="4 C17"),
-}
+import glob
+CHECKS = {}
+for f in sorted(glob.glob(os.path.join(HERE, "manifest.d", "C*.json"))):
+    CHECKS[os.path.basename(f)[:-5]] = json.load(open(f))
 
 NOT_YET = "check not built yet at this commit (work in progress; see DESIGN.md section 9 build order)"
 
@@ -65,7 +55,7 @@ def main():
     except ImportError:
         print("MANIFEST.json written (jsonschema not available to validate)")
 
-HOOK_COMMITS = []
-NA = {}
+HOOK_COMMITS = json.load(open(os.path.join(HERE, "manifest.d", "hooks.json"))) if os.path.exists(os.path.join(HERE, "manifest.d", "hooks.json")) else []
+NA = json.load(open(os.path.join(HERE, "manifest.d", "not_applicable.json"))) if os.path.exists(os.path.join(HERE, "manifest.d", "not_applicable.json")) else {}
 if __name__ == "__main__":
     main()
